@@ -140,6 +140,284 @@ def gen_value(rng, w):
     return rng.choice([0, 1, (1 << w) - 1, 1 << w, (1 << w) + 1, rng.getrandbits(w), rng.getrandbits(w), rng.getrandbits(w + 3)])
 
 
+# ====================================================================================================
+# C11 extension: configuration path (get_config / load_yml_config) and alternative widths vs the model
+# ====================================================================================================
+
+def byte_cnt(v):
+    return 1 if v == 0 else (v.bit_length() + 7) // 8
+
+
+def alt_width(alts, width, v):
+    """own statement of Register.get_alt_width (smallest alternative width that holds the value, else the width)"""
+    ok = [a for a in alts if byte_cnt(v) <= a // 8]
+    return min(ok) if ok else width
+
+
+def alt_unstable(alts, width, v):
+    """known finding C11-alt-width-reversed-trailing-zero-bytes: a byte-reversed value of alternative width `aw` whose low
+    (aw - a)/8 bytes are zero for a smaller alternative width `a` is read back with width `a`"""
+    aw = alt_width(alts, width, v)
+    return v != 0 and any(a < aw and v % (1 << (aw - a)) == 0 for a in alts)
+
+
+ALT_GROUPS = ((32, 12, [256]), (32, 12, [256]), (8, 4, [16]), (16, 6, [32, 64]), (32, 4, [64]))
+
+
+def gen_layout_cfg(rng):
+    """layouts for the configuration stream: bit-fields are contiguous from bit 0 (as `create_from_spec` numbers them), some of
+    them hidden (spec entries without a name), enum tables with repeated values and names shared by several values,
+    reserved registers, reversed groups, groups with alternative widths (normal sub-register order, explicit width, as the
+    database configures ROTKH/RKTH), and -- by flipping `reverse` after loading -- reversed plain registers with bit-fields."""
+    regs, off = [], 0
+    for ri in range(rng.choice([1, 2, 3, 4])):
+        kind = rng.choices(["plain", "group", "altgroup"], [0.6, 0.2, 0.2])[0]
+        if kind == "plain":
+            width = rng.choice([8, 16, 32, 32, 32, 64, 128])
+            fields, pos = [], 0
+            if rng.random() < 0.85:
+                while pos < width and len(fields) < 8:
+                    if rng.random() < 0.08:
+                        break  # trailing bits that no bit-field covers
+                    w = rng.choice([1, 1, 2, 3, 4, 7, 8, 13, 16, 31, 32, width - pos, width])
+                    w = max(1, min(w, width - pos))
+                    hidden = rng.random() < 0.25
+                    shift = rng.choice([0, 0, 0, 0, 1, 4]) if (w < 30 and not hidden) else 0
+                    enums, names = [], []
+                    if not hidden and rng.random() < 0.5:
+                        pool = [rng.randrange(min(1 << w, 16)) for _ in range(3)]
+                        for k in range(rng.choice([1, 2, 3, 4, 5])):
+                            ev = rng.choice(pool) << shift
+                            if shift and rng.random() < 0.1:
+                                ev += 1
+                            enums.append(ev)
+                            names.append(rng.randrange(3) if rng.random() < 0.5 else 10 + k)
+                    reset = rng.choice([0, 0, 1, (1 << w) - 1, rng.randrange(1 << w)])
+                    if hidden and rng.random() < 0.6:
+                        reset = 0
+                    fields.append(dict(offset=pos, width=w, shift=shift, enums=enums, names=names, reset=reset << shift, hidden=hidden))
+                    pos += w
+            regs.append(dict(kind="plain", width=width, offset=off, reverse=False, reset=rng.choice([0, 0, rng.getrandbits(width)]),
+                             fields=fields, reserved=rng.random() < 0.1, flip=bool(fields) and rng.random() < 0.12))
+            off += width // 8
+        else:
+            if kind == "group":
+                sub_w, n, alts = rng.choice([8, 16, 32]), rng.choice([2, 3, 4, 8]), []
+                rev_subs = rng.random() < 0.4
+            else:
+                sub_w, n, alts = rng.choice(ALT_GROUPS)
+                rev_subs = False
+            regs.append(dict(kind="group", width=sub_w * n, offset=off, sub_w=sub_w, n=n, reverse=rng.random() < 0.5, rev_subs=rev_subs,
+                             alts=list(alts), hexstr=rng.random() < 0.5, explicit=bool(alts) or rng.random() < 0.3,
+                             sub_resets=[rng.choice([0, 0, 0, rng.getrandbits(sub_w)]) for _ in range(n)]))
+            off += sub_w * n // 8
+    return regs
+
+
+def fname(ri, fi, f):
+    return f"HIDDEN_BITFIELD_{f['offset']:03X}" if f["hidden"] else f"F{ri}_{fi}"
+
+
+def build_real_cfg(layout, little):
+    from spsdk.utils.misc import Endianness
+    from spsdk.utils.registers import Registers
+    import logging
+    spec_regs, grouped = [], []
+    for ri, r in enumerate(layout):
+        if r["kind"] == "plain":
+            bfs = []
+            for fi, f in enumerate(r["fields"]):
+                b = {"width": f["width"]}
+                if f["reset"]:
+                    b["reset_value_int"] = hex(f["reset"])
+                if not f["hidden"]:
+                    b.update({"id": f"r{ri}f{fi}", "name": f"F{ri}_{fi}", "access": "RW",
+                              "values": [{"name": f"N{nm}", "value": hex(v), "description": ""} for v, nm in zip(f["enums"], f["names"])]})
+                    if f["shift"]:
+                        b["config_preprocess"] = f"SHIFT_RIGHT:COUNT={f['shift']}"
+                bfs.append(b)
+            spec_regs.append({"id": f"r{ri}", "name": f"REG{ri}", "offset_int": hex(r["offset"]), "reg_width": r["width"],
+                              "reset_value_int": hex(r["reset"]), "bitfields": bfs, "is_reserved": r["reserved"]})
+        else:
+            subs = []
+            for k in range(r["n"]):
+                subs.append(f"r{ri}s{k}")
+                spec_regs.append({"id": f"r{ri}s{k}", "name": f"REG{ri}_S{k}", "offset_int": hex(r["offset"] + k * r["sub_w"] // 8),
+                                  "reg_width": r["sub_w"], "reset_value_int": hex(r["sub_resets"][k])})
+            g = {"uid": f"r{ri}", "name": f"REG{ri}", "sub_regs": subs, "reversed": r["reverse"], "reverse_subregs_order": r["rev_subs"],
+                 "config_as_hexstring": r["hexstr"]}
+            if r["explicit"]:
+                g["width"] = r["width"]
+            if r["alts"]:
+                g["alternative_widths"] = list(r["alts"])
+            grouped.append(g)
+    logging.disable(logging.CRITICAL)
+    regs = Registers(family="verif_dummy", feature="verif", base_endianness=Endianness.LITTLE if little else Endianness.BIG)
+    logging.disable(logging.NOTSET)
+    regs._load_from_spec({"groups": [{"group": {"name": "g"}, "registers": spec_regs}]}, grouped)
+    for ri, r in enumerate(layout):
+        if r["kind"] == "plain" and r["flip"]:
+            regs.find_reg(f"REG{ri}").reverse = True   # Register(reverse=True) with bit-fields: only reachable through the API
+    return regs
+
+
+def model_lines_cfg(layout, little):
+    lines = [f"new {int(little)}"]
+    for r in layout:
+        if r["kind"] == "plain":
+            lines.append(f"reg {r['width']} 0 {r['reset']} 0 0 0")
+            for f in r["fields"]:
+                lines.append(f"field {f['offset']} {f['width']} {f['shift']} {f['reset']} {','.join(map(str, f['enums'])) or '-'}")
+                lines.append(f"fmeta {int(f['hidden'])} {','.join(map(str, f['names'])) or '-'}")
+        else:
+            lines.append(f"reg {r['width']} {int(r['reverse'])} 0 {r['sub_w']} {r['n']} {int(r['rev_subs'])}")
+            if r["alts"]:
+                lines.append("alts " + ",".join(map(str, r["alts"])))
+    lines.append("init")
+    for ri, r in enumerate(layout):
+        if r["kind"] == "group":
+            val = 0
+            for k, sv in enumerate(r["sub_resets"]):
+                val |= sv << ((r["width"] - (k + 1) * r["sub_w"]) if r["rev_subs"] else k * r["sub_w"])
+            lines.append(f"set_reg {ri} {val} 1")   # every sub-register gets its reset value (raw, full width)
+        elif r["flip"]:
+            lines.append(f"flip_reverse {ri}")
+    lines += ["mark", "dump"]
+    return lines
+
+
+def dump_real_cfg(regs, layout):
+    out = []
+    for ri, r in enumerate(layout):
+        reg = regs.find_reg(f"REG{ri}")
+        vals = []
+        for raw in (True, False):
+            res = pyres(reg.get_value, raw)
+            vals.append(str(res[1]) if res[0] == "ok" else res[0])
+        fs = []
+        if r["kind"] == "plain":
+            for fi, f in enumerate(r["fields"]):
+                res = pyres(reg.find_bitfield(fname(ri, fi, f)).get_value)
+                fs.append(str(res[1]) if res[0] == "ok" else res[0])
+        out.append(f"{vals[0]}/{vals[1]}[{','.join(fs)}]")
+    return " ".join(out)
+
+
+def canon_cfg(cfg, layout):
+    """configuration dictionary (as get_config returns it, or hand-made) -> the model's encoding; names -> indices"""
+    rnames, fnames = {}, {}
+    for ri, r in enumerate(layout):
+        rnames[f"REG{ri}"] = (f"t{ri}", ri)
+        if r["kind"] == "group":
+            for k in range(r["n"]):
+                rnames[f"REG{ri}_S{k}"] = (f"s{ri}.{k}", None)
+        else:
+            fnames[ri] = {fname(ri, fi, f): fi for fi, f in enumerate(r["fields"])}
+
+    def cval(x, enum_names):
+        if isinstance(x, int):
+            return f"n{x}"
+        if x in enum_names or (x.startswith("N") and x[1:].isdigit()):
+            return f"e{x[1:]}"
+        if x.startswith("RAW:"):
+            return f"r{int(x[4:], 0)}"
+        return f"n{int(x, 0)}"
+
+    def rval(x, hexstr):
+        return f"v{x}" if isinstance(x, int) else f"v{int(x, 16) if hexstr or x.lower().startswith('0x') else int(x, 0)}"
+
+    entries = []
+    for name, val in cfg.items():
+        ref, ri = rnames.get(name, ("t999", None))
+        r = layout[ri] if ri is not None else None
+        hexstr = bool(r and r["kind"] == "group" and r["hexstr"])
+        if isinstance(val, dict):
+            if "value" in val:
+                entries.append((ref, rval(val["value"], hexstr)))
+                continue
+            d = val["bitfields"] if "bitfields" in val else val
+            fmap = fnames.get(ri, {}) if ri is not None else {}
+            items = []
+            for bname, bval in d.items():
+                fi = fmap.get(bname, 999)
+                enum_names = {f"N{n}" for n in r["fields"][fi]["names"]} if (r and fi != 999) else set()
+                items.append((fi, cval(bval, enum_names)))
+            entries.append((ref, "f" + ",".join(f"{fi}:{c}" for fi, c in items)))
+        else:
+            entries.append((ref, rval(val, hexstr)))
+    return entries
+
+
+def enc_cfg(entries, sort=False):
+    if sort:   # get_config: the order of the dictionary is not part of the property
+        def key(e):
+            return (e[0], )
+        entries = sorted(((ref, ("f" + ",".join(sorted(c[1:].split(","), key=lambda it: int(it.split(":")[0]))) if c.startswith("f") and len(c) > 1 else c))
+                          for ref, c in entries), key=lambda e: int(e[0][1:]) if e[0][1:].isdigit() else 10 ** 6)
+    return ";".join(f"{ref}={c}" for ref, c in entries) or "-"
+
+
+def mutate_cfg(rng, cfg, layout):
+    """hand-made configuration derived from a real one: ints, hex / decimal strings, RAW: strings, enum names (known, unknown),
+    out-of-range numbers, `value` / `bitfields` forms, sub-register keys, unknown register / bit-field names, empty dicts."""
+    out = {}
+    for ri, r in enumerate(layout):
+        name = f"REG{ri}"
+        c = rng.random()
+        if c < 0.25:
+            continue
+        if r["kind"] == "plain" and r["fields"] and c < 0.8:
+            d = {}
+            for fi, f in enumerate(r["fields"]):
+                if rng.random() < 0.4:
+                    continue
+                k = rng.random()
+                v = gen_value(rng, f["width"]) << f["shift"]
+                if k < 0.25:
+                    d[fname(ri, fi, f)] = v
+                elif k < 0.45:
+                    d[fname(ri, fi, f)] = rng.choice([hex(v), str(v), hex(v).upper().replace("0X", "0x")])
+                elif k < 0.6:
+                    d[fname(ri, fi, f)] = "RAW:" + hex(gen_value(rng, f["width"]))
+                elif k < 0.9 and f["names"]:
+                    d[fname(ri, fi, f)] = f"N{rng.choice(f['names'])}"
+                elif k < 0.93:
+                    d[fname(ri, fi, f)] = "N99"
+                else:
+                    d[fname(ri, fi, f)] = v
+            if rng.random() < 0.04:
+                d["NO_SUCH_FIELD"] = 1
+            out[name] = {"bitfields": d} if rng.random() < 0.3 else d
+        elif r["kind"] == "group" and c < 0.45:
+            k = rng.randrange(r["n"])
+            v = gen_value(rng, r["sub_w"])
+            out[f"REG{ri}_S{k}"] = rng.choice([v, hex(v), {"value": v}, {}])
+        elif c < 0.5:
+            out[name] = {}
+        else:
+            v = gen_cfg_reg_value(rng, r)
+            hexstr = r["kind"] == "group" and r["hexstr"]
+            form = rng.choice(["int", "str", "value"])
+            sv = (f"{v:X}" if hexstr else hex(v)) if v >= 0 else v
+            out[name] = v if form == "int" else sv if form == "str" else {"value": rng.choice([v, sv])}
+    if rng.random() < 0.04:
+        out["NO_SUCH_REG"] = 1
+    return out
+
+
+def gen_cfg_reg_value(rng, r):
+    w = r["width"]
+    if r["kind"] == "group" and r["alts"]:
+        a = rng.choice(r["alts"] + [w])
+        k = rng.random()
+        if k < 0.5:
+            return rng.getrandbits(a) | 1 << (a - 1) | 1    # `a` bits, no zero byte at either end
+        if k < 0.7:
+            return (rng.getrandbits(a) | 1 << (a - 1)) >> 8 * rng.randrange(a // 8) << 8 * rng.randrange(a // 8)
+        return gen_value(rng, a)
+    return gen_value(rng, w)
+
+
 def run(ck):
     from spsdk.utils.registers import Registers  # noqa: F401
 
@@ -318,6 +596,242 @@ def run(ck):
                     if rev_subs and alt != grp.width:
                         continue  # documented limitation: reversed sub-register order positions depend on the (alt) width on set but on the full width on get
                     sa.expect(res[0] == "ok" and got == ("ok", v), (sub_w, n, alts, rev_subs, v), "alt-width group register does not read back the written value", got, v)
+
+    # reversed alt-width groups as the database configures them (ROTKH / RKTH: 12 x 32 bits, alternative width 256, reversed),
+    # incl. the two open findings (deterministic cases, so that they are reported by every run)
+    for sub_w, n, alts in ((32, 12, [256]), (16, 6, [32, 64]), (8, 4, [16])):
+        width = sub_w * n
+        for rev in (True, False):
+            def mk():
+                g = Register(name="G", offset=0, width=width, uid="g", alt_widths=list(alts), reverse=rev)
+                for k in range(n):
+                    g._add_group_reg(Register(name=f"S{k}", offset=k * sub_w // 8, width=sub_w, uid=f"s{k}"))
+                return g
+            vals = []
+            for alt in alts + [width]:
+                vals += [0, 1, (1 << alt) - 1, rng.getrandbits(alt) | 1 << (alt - 1) | 1, (rng.getrandbits(alt) | 1 << (alt - 1)) >> 16 << 16,
+                         1 << (alt - 1), rng.getrandbits(alt) >> 8 * rng.randrange(alt // 8)]
+            for v in vals:
+                for raw in (False, True):
+                    grp = mk()
+                    res = pyres(grp.set_value, v, raw)
+                    got = pyres(grp.get_value, raw)
+                    sa.note((sub_w, n, alts, rev, v, raw), cls=f"rev={int(rev)}")
+                    finding = "C11-alt-width-reversed-trailing-zero-bytes" if (rev and not raw and alt_unstable(alts, width, v)) else None
+                    sa.expect(res[0] == "ok" and got == ("ok", v), (sub_w, n, alts, rev, v, raw),
+                              "alt-width group register does not read back the written value", got, v, finding=finding)
+                    # a value of the full width, then a shorter one: the register must read the last value written
+                    grp = mk()
+                    big = (1 << (width - 1)) | 0x55
+                    r1 = pyres(grp.set_value, big, raw)
+                    r2 = pyres(grp.set_value, v, raw)
+                    got = pyres(grp.get_value, raw)
+                    aw = alt_width(alts, width, v)
+                    finding = ("C11-alt-width-stale-sub-registers" if aw < width else
+                               "C11-alt-width-reversed-trailing-zero-bytes" if (rev and not raw and alt_unstable(alts, width, v)) else None)
+                    sa.expect(r1[0] == "ok" and r2[0] == "ok" and got == ("ok", v), (sub_w, n, alts, rev, ("then", big, v), raw),
+                              "alt-width group register does not read the last value written (full-width value, then a shorter one)", got, v, finding=finding)
+
+    # negative values must be refused everywhere (a register that accepted one loops forever in export())
+    sn = ck.stream("negative_values", "negative integers written to registers, bit-fields and through load_yml_config must be refused; non-trivial = distinct (target, value)")
+    for w in (8, 32, 64):
+        for v in (-1, -(1 << w), -(1 << (w - 1)), -rng.getrandbits(w) - 1):
+            layout = [dict(kind="plain", width=w, offset=0, reverse=False, reset=0, reserved=False, flip=False,
+                           fields=[dict(offset=0, width=w // 2, shift=0, enums=[], names=[], reset=0, hidden=False)])]
+            for target in ("register", "bitfield", "config-register", "config-value", "config-bitfield"):
+                regs = build_real_cfg(layout, True)
+                reg = regs.find_reg("REG0")
+                st0 = dump_real_cfg(regs, layout)
+                if target == "register":
+                    res = pyres(reg.set_value, v)
+                elif target == "bitfield":
+                    res = pyres(reg.find_bitfield("F0_0").set_value, v)
+                elif target == "config-register":
+                    res = pyres(quiet, regs.load_yml_config, {"REG0": v})
+                elif target == "config-value":
+                    res = pyres(quiet, regs.load_yml_config, {"REG0": {"value": v}})
+                else:
+                    res = pyres(quiet, regs.load_yml_config, {"REG0": {"F0_0": v}})
+                sn.note((w, v, target), cls=target)
+                sn.expect(res[0] == "E:spsdk" and dump_real_cfg(regs, layout) == st0, (w, v, target),
+                          "a negative value is not refused (or the refused write changed the register)", (res, dump_real_cfg(regs, layout)), "E:spsdk",
+                          finding=None if target in ("bitfield", "config-bitfield") else "C11-register-negative-value-accepted")
+
+    run_config_model(ck, drv)
+
+
+def quiet(fn, *a, **kw):
+    """run real code with logging silenced (load_yml_config logs every refused entry)"""
+    import logging
+    logging.disable(logging.CRITICAL)
+    try:
+        return fn(*a, **kw)
+    finally:
+        logging.disable(logging.NOTSET)
+
+
+def run_config_model(ck, drv):
+    """stream `config_model`: get_config / load_yml_config / alternative widths of the real object vs the Lean model, plus the
+    property oracle of the configuration clauses on the real object alone."""
+    rng = ck.rng
+    n_layouts = ck.budget(450, 6000)
+    sc = ck.stream("config_model", f"{n_layouts} random layouts (plain registers with contiguous bit-fields, ~25% hidden, enum tables with repeated values and "
+                   "names shared by several values, SHIFT_RIGHT, reserved registers, trailing uncovered bits, reversed plain registers with bit-fields; "
+                   "groups incl. reversed, config_as_hexstring, alternative widths [256] in 384 bits as in the database and smaller variants) x "
+                   "random state (register / sub-register / bit-field / enum writes, state compared after each) -> get_config() compared with the model "
+                   "(names -> indices), load_yml_config(get_config()) into a fresh object (result + complete state compared), loaded a second time, and two "
+                   "hand-made configurations (ints, hex strings, RAW: strings, enum names, unknown names, out-of-range values, value/bitfields forms, "
+                   "sub-register keys, {}) loaded into fresh objects; non-trivial = distinct (layout, state, configuration)")
+    for li in range(n_layouts):
+        layout = gen_layout_cfg(rng)
+        little = rng.random() < 0.5
+        try:
+            regs = build_real_cfg(layout, little)
+        except Exception as exc:  # noqa: BLE001
+            sc.expect(False, layout, f"generated layout does not load: {type(exc).__name__}: {exc}")
+            continue
+        lines = model_lines_cfg(layout, little)
+        n_setup = len(lines)
+        real = ["ok " + dump_real_cfg(regs, layout)]          # answers expected from `dump` on
+        what = ["state after load"]
+        fresh_hidden_ok = all(pyres(regs.find_reg(f"REG{ri}").find_bitfield(fname(ri, fi, f)).get_value) ==
+                              ("ok", regs.find_reg(f"REG{ri}").find_bitfield(fname(ri, fi, f)).get_reset_value())
+                              for ri, r in enumerate(layout) if r["kind"] == "plain" and not r["flip"] for fi, f in enumerate(r["fields"]) if f["hidden"])
+        sc.expect(fresh_hidden_ok, layout, "a hidden bit-field of a freshly loaded object is not at its reset value")
+        ops = []
+        # ---- random state
+        for _ in range(rng.choice([0, 2, 4, 6, 8])):
+            ri = rng.randrange(len(layout))
+            r = layout[ri]
+            reg = regs.find_reg(f"REG{ri}")
+            c = rng.random()
+            if r["kind"] == "plain" and r["fields"] and c < 0.6:
+                fi = rng.randrange(len(r["fields"]))
+                f = r["fields"][fi]
+                bf = reg.find_bitfield(fname(ri, fi, f))
+                if f["names"] and rng.random() < 0.4:
+                    nm = rng.choice(f["names"])
+                    k = f["names"].index(nm)
+                    res = pyres(bf.set_enum_value, f"N{nm}")
+                    lines.append(f"set_enum {ri} {fi} {k}")
+                    ops.append(("set_enum", ri, fi, nm))
+                    written = f["enums"][k] >> f["shift"]
+                    if written < (1 << f["width"]) and not r["flip"]:
+                        got = pyres(bf.get_value)
+                        sc.expect(res[0] == "ok" and got == ("ok", written << f["shift"]), (layout, ops[-1]),
+                                  "a bit-field written by enum name does not read the value of that name", got, written << f["shift"])
+                else:
+                    v = gen_value(rng, f["width"]) << f["shift"]
+                    raw = rng.random() < 0.5
+                    res = pyres(bf.set_value, v, raw)
+                    lines.append(f"set_field {ri} {fi} {v} {int(raw)}")
+                    ops.append(("set_field", ri, fi, v, raw))
+            elif r["kind"] == "group" and c < 0.3:
+                k = rng.randrange(r["n"])
+                v = gen_value(rng, r["sub_w"])
+                res = pyres(regs.find_reg(f"REG{ri}_S{k}", include_group_regs=True).set_value, v)
+                lines.append(f"set_sub {ri} {k} {v}")
+                ops.append(("set_sub", ri, k, v))
+            else:
+                v = gen_cfg_reg_value(rng, r)
+                raw = rng.random() < 0.5
+                stale = False
+                if r["kind"] == "group" and r["alts"] and 0 <= v < (1 << r["width"]):
+                    aw = alt_width(r["alts"], r["width"], v)
+                    stale = any(pyres(regs.find_reg(f"REG{ri}_S{k}", include_group_regs=True).get_value)[1] != 0 for k in range(aw // r["sub_w"], r["n"]))
+                res = pyres(reg.set_value, v, raw)
+                lines.append(f"set_alt {ri} {v} {int(raw)}")
+                ops.append(("set_reg", ri, v, raw))
+                sc.expect((v < (1 << r["width"])) == (res[0] == "ok"), (layout, ops[-1]), "a value that does not fit the register is not rejected (or a fitting one is)", res)
+                if res[0] == "ok":
+                    got = pyres(reg.get_value, raw)
+                    finding = None
+                    if r["kind"] == "group" and r["alts"]:
+                        if stale:
+                            finding = "C11-alt-width-stale-sub-registers"
+                        elif r["reverse"] and not raw and alt_unstable(r["alts"], r["width"], v):
+                            finding = "C11-alt-width-reversed-trailing-zero-bytes"
+                    sc.expect(got == ("ok", v), (layout, ops[-1]), "register does not read back the value just written", got, v, finding=finding)
+            real.append(res[0] + " " + dump_real_cfg(regs, layout))
+            what.append(f"state after op {ops[-1]}")
+        # ---- get_config
+        st_x = dump_real_cfg(regs, layout)
+        raw_x = [pyres(regs.find_reg(f"REG{ri}").get_value, True) for ri in range(len(layout))]
+        gc = pyres(regs.get_config)
+        sc.note((layout, ops), cls=f"regs={len(layout)}")
+        sc.expect(gc[0] == "ok", (layout, ops), "get_config raised", gc)
+        if gc[0] != "ok":
+            continue
+        cfg = gc[1]
+        sc.expect(dump_real_cfg(regs, layout) == st_x, (layout, ops), "get_config changed the object")
+        lines.append("get_config")
+        real.append("ok:" + enc_cfg(canon_cfg(cfg, layout), sort=True))
+        what.append("get_config")
+        # ---- load into a fresh object, twice
+        fresh = build_real_cfg(layout, little)
+        fresh_upper = {ri: [pyres(fresh.find_reg(f"REG{ri}_S{k}", include_group_regs=True).get_value)[1] for k in range(r["n"])]
+                       for ri, r in enumerate(layout) if r["kind"] == "group"}
+        enc = enc_cfg(canon_cfg(cfg, layout))
+        st_fresh = dump_real_cfg(fresh, layout)
+        lr = pyres(quiet, fresh.load_yml_config, copy.deepcopy(cfg))
+        lines += ["restore", f"load_config {enc}"]
+        real += ["ok " + st_fresh, (lr[0] + " " + dump_real_cfg(fresh, layout)) if lr[0] == "ok" else lr[0]]
+        what += ["fresh object", "load_yml_config(get_config()) into a fresh object"]
+        sc.expect(lr[0] == "ok", (layout, ops, cfg), "a configuration obtained from the object does not load", lr)
+        if lr[0] == "ok":
+            for ri, r in enumerate(layout):
+                a, b = regs.find_reg(f"REG{ri}"), fresh.find_reg(f"REG{ri}")
+                if r["kind"] == "plain" and r["fields"]:
+                    for fi, f in enumerate(r["fields"]):
+                        va, vb = pyres(a.find_bitfield(fname(ri, fi, f)).get_value), pyres(b.find_bitfield(fname(ri, fi, f)).get_value)
+                        sc.expect(va == vb, (layout, ops, "config", ri, fi, cfg), "a configuration obtained from the object does not load back to the same bit-field value", vb, va)
+                else:
+                    va, vb = pyres(a.get_value, True), pyres(b.get_value, True)
+                    finding = None
+                    if r["kind"] == "group" and r["alts"] and raw_x[ri][0] == "ok":
+                        aw = alt_width(r["alts"], r["width"], raw_x[ri][1])
+                        if any(x != 0 for x in fresh_upper[ri][aw // r["sub_w"]:]):
+                            finding = "C11-alt-width-stale-sub-registers"
+                        elif r["reverse"] and alt_unstable(r["alts"], r["width"], raw_x[ri][1]):
+                            finding = "C11-alt-width-reversed-trailing-zero-bytes"
+                    sc.expect(va == vb, (layout, ops, "config", ri, cfg), "a configuration obtained from the object does not load back to the same register value", vb, va, finding=finding)
+            st1 = dump_real_cfg(fresh, layout)
+            lr2 = pyres(quiet, fresh.load_yml_config, copy.deepcopy(cfg))
+            lines.append(f"load_config {enc}")
+            real.append((lr2[0] + " " + dump_real_cfg(fresh, layout)) if lr2[0] == "ok" else lr2[0])
+            what.append("the same configuration loaded a second time")
+            # idempotence holds unless a reversed register is given as bit-field dictionary (its raw value is byte-swapped by every load)
+            if not any(r["kind"] == "plain" and r["flip"] for r in layout):
+                sc.expect(lr2[0] == "ok" and dump_real_cfg(fresh, layout) == st1, (layout, ops, cfg), "loading the same configuration twice differs from loading it once",
+                          dump_real_cfg(fresh, layout), st1)
+        # ---- hand-made configurations into fresh objects
+        for _ in range(2):
+            hc = mutate_cfg(rng, cfg, layout)
+            fresh = build_real_cfg(layout, little)
+            hr = pyres(quiet, fresh.load_yml_config, copy.deepcopy(hc))
+            try:
+                enc_h = enc_cfg(canon_cfg(hc, layout))
+            except Exception as exc:  # noqa: BLE001 - generator bug, not a property violation
+                sc.expect(False, (layout, hc), f"harness cannot encode a generated configuration: {exc}")
+                continue
+            sc.note((layout, "hand-made", hc), cls="hand-made:" + hr[0])
+            sc.expect(hr[0] in ("ok", "E:spsdk"), (layout, hc), "load_yml_config raised a non-SPSDK exception", hr)
+            lines += ["restore", f"load_config {enc_h}"]
+            real += [None, (hr[0] + " " + dump_real_cfg(fresh, layout)) if hr[0] == "ok" else hr[0]]
+            what += [None, f"hand-made configuration {hc}"]
+        # ---- model
+        if drv is not None:
+            ans = drv.batch(lines)
+            model = ans[n_setup - 1:]
+            for k, (rs, ms, wh) in enumerate(zip(real, model, what)):
+                if rs is None:
+                    continue
+                if not rs.startswith("ok") and not rs.startswith("E:"):
+                    continue
+                if rs.startswith("E:") and " " not in rs:
+                    ms = ms.split(" ")[0]      # a failed load leaves the real object half-written; only the error class is compared
+                if not sc.compare((layout, little, ops, wh), rs, ms, "configuration path / alternative widths: implementation and model differ"):
+                    break
 
 
 def replay(ck, data):
